@@ -96,7 +96,8 @@ class Explorer:
             if c.target:
                 self.by_target[c.target] = c
         self.invariants = invariants
-        self.types = TypeParser(index, ['fpy2.number', 'fpy2.utils', 'fpy2', 'fpy2.ast', 'fpy2.analysis'])
+        self.types = TypeParser(index, ['fpy2.number', 'fpy2.utils', 'fpy2', 'fpy2.ast', 'fpy2.analysis',
+                                        'fpy2.analysis.format_infer'])
         self.intrinsics = Intrinsics(self)
         self.global_cache = {}
         self.tags = Tags()
